@@ -128,6 +128,10 @@ pub struct RunCfg {
     pub checkpoint: bool,
     /// mount with FsOptions::strict(false)
     pub lenient_mount: bool,
+    /// a second handle may be opened on a file whose existing handles are clean (flushed); those then stay idle - no
+    /// call goes through them any more, they are only dropped (nothing forbids opening a file twice; an idle clean
+    /// handle has nothing to write back)
+    pub idle_second_handle: bool,
 }
 
 pub const ALL_FSCK: &[Fk] = &[
@@ -166,6 +170,7 @@ impl RunCfg {
             budget_per_op: 2_000_000,
             checkpoint: false,
             lenient_mount: false,
+            idle_second_handle: false,
         }
     }
     pub fn wants(&self, a: Aspect) -> bool {
@@ -210,6 +215,8 @@ struct MFile {
     dirty: bool,
     /// creation time set explicitly through this handle (part of the entry its flush hands to the storage)
     set_created: Option<Ts>,
+    /// another handle was opened on the file after this one had been flushed: only dropped from now on
+    idle: bool,
 }
 
 pub struct Run<'a> {
@@ -387,6 +394,22 @@ impl<'a> Run<'a> {
     fn node_has_handle(&self, n: Nid) -> bool {
         self.files.iter().flatten().any(|f| f.node == n) || self.dirs.iter().flatten().any(|d| *d == n)
     }
+    /// true if every existing handle on the file is clean and could be made idle (see RunCfg::idle_second_handle)
+    fn retire_clean_handles(&mut self, n: Nid) -> bool {
+        if !self.cfg.idle_second_handle || self.vol.access_date {
+            return false;
+        }
+        if self.files.iter().flatten().any(|f| f.node == n && f.dirty) {
+            return false;
+        }
+        for f in self.files.iter_mut().flatten() {
+            if f.node == n {
+                f.idle = true;
+            }
+        }
+        self.trace.hit("second_handle_on_a_file_whose_first_is_idle");
+        true
+    }
     fn any_dirty(&self) -> bool {
         self.files.iter().flatten().any(|f| f.dirty)
     }
@@ -435,9 +458,11 @@ impl<'a> Run<'a> {
             self.call("drop file handle", |s| {
                 s.files[k] = None;
             })?;
-            let n = self.files[k].as_ref().map(|f| (f.node, f.set_created));
+            let n = self.files[k].as_ref().map(|f| (f.node, f.set_created, f.idle));
             self.files[k] = None;
-            if let (true, Some((n, c))) = (self.crash, n) {
+            // (the drop of an idle handle hands nothing to the storage: it is no flush point for what another handle has
+            // written since - and it may not undo what that handle flushed)
+            if let (true, Some((n, c, false))) = (self.crash, n) {
                 self.record_flush_event(n, c);
             }
         }
@@ -703,6 +728,12 @@ impl<'a> Run<'a> {
     }
 
     fn exec_inner(&mut self, op: &Op) -> VResult<bool> {
+        // nothing goes through an idle handle any more; it can only be dropped
+        if let Op::Read { h, .. } | Op::Write { h, .. } | Op::WriteRetry { h, .. } | Op::Seek { h, .. } | Op::Truncate { h } | Op::Flush { h } | Op::FlushRetry { h, .. } | Op::CloneSwap { h } | Op::SetTimes { h, .. } | Op::Extents { h } = op {
+            if self.files[*h as usize % NSLOTS].as_ref().map_or(false, |f| f.idle) {
+                return Ok(false);
+            }
+        }
         match op {
             Op::CreateFile { via, path, keep } => self.op_create(*via, path, *keep, false),
             Op::CreateDir { via, path, keep } => self.op_create(*via, path, *keep, true),
@@ -766,8 +797,8 @@ impl<'a> Run<'a> {
                     if self.model.node(n).is_dir() != dir {
                         errs.push(EK::InvalidInput);
                     } else {
-                        if self.node_has_handle(n) && !dir {
-                            return Ok(false); // precondition: no second handle on one file
+                        if self.node_has_handle(n) && !dir && !self.retire_clean_handles(n) {
+                            return Ok(false); // precondition: no second ACTIVE handle on one file
                         }
                         ok_allowed = true;
                         existing = Some(n);
@@ -845,7 +876,7 @@ impl<'a> Run<'a> {
                 if dir {
                     self.dirs[k] = Some(node);
                 } else {
-                    self.files[k] = Some(MFile { node, pos: 0, dirty: false, set_created: None });
+                    self.files[k] = Some(MFile { node, pos: 0, dirty: false, set_created: None, idle: false });
                 }
             }
         } else if matches!(&res, Err(e) if ek(e) == EK::NotEnoughSpace) {
@@ -874,7 +905,7 @@ impl<'a> Run<'a> {
                     if self.model.node(n).is_dir() != dir {
                         errs.push(EK::InvalidInput);
                     } else {
-                        if !dir && self.node_has_handle(n) {
+                        if !dir && self.node_has_handle(n) && !self.retire_clean_handles(n) {
                             return Ok(false);
                         }
                         ok_allowed = true;
@@ -929,7 +960,7 @@ impl<'a> Run<'a> {
                 if dir {
                     self.dirs[k] = Some(n);
                 } else {
-                    self.files[k] = Some(MFile { node: n, pos: 0, dirty: false, set_created: None });
+                    self.files[k] = Some(MFile { node: n, pos: 0, dirty: false, set_created: None, idle: false });
                 }
             }
         }
@@ -1281,7 +1312,8 @@ impl<'a> Run<'a> {
     fn suspend_touched(&mut self, op: &Op) {
         let at = self.dev.with(|d| d.wlog.len());
         let mut touched: Vec<Nid> = Vec::new();
-        let handle_node = |h: u8| self.files[h as usize % NSLOTS].as_ref().map(|f| f.node);
+        // (an idle handle modifies nothing, its drop included)
+        let handle_node = |h: u8| self.files[h as usize % NSLOTS].as_ref().filter(|f| !f.idle).map(|f| f.node);
         match op {
             Op::Write { h, .. } | Op::WriteRetry { h, .. } | Op::Truncate { h } | Op::SetTimes { h, .. } | Op::Read { h, .. } | Op::CloseFile { h } => {
                 if let Some(n) = handle_node(*h) {
